@@ -76,7 +76,19 @@ pub fn trav(rest: &str) -> String {
     let gm = show_mut(m.global_inst_iter_mut());
     let am = show_mut(m.all_inst_iter_mut());
     let fm: Vec<String> = m.functions.iter_mut().map(|f| show_mut(f.all_inst_iter_mut())).collect();
-    let words: Vec<String> = m.assemble().iter().map(|w| w.to_string()).collect();
+    let alone = m.assemble();
+    // the other entry point of `Assemble`: appending after existing content, at offsets that put the header / the first
+    // instructions across a 65536-word boundary of the output
+    for prefix in [1usize, 65530, 65535, 131071] {
+        let mut out = vec![0xdead_beef_u32; prefix];
+        m.assemble_into(&mut out);
+        if out[..prefix].iter().any(|w| *w != 0xdead_beef) || out[prefix..] != alone[..] {
+            let at = (0..alone.len()).find(|k| out.get(prefix + k) != alone.get(*k));
+            return format!("entry-points-differ prefix={} first-difference-at={:?} assemble-len={} assemble_into-len={}",
+                prefix, at, alone.len(), out.len() - prefix.min(out.len()));
+        }
+    }
+    let words: Vec<String> = alone.iter().map(|w| w.to_string()).collect();
     format!(
         "ok g:{} gm:{} a:{} am:{} f:{} fm:{} asm:{}",
         g, gm, a, am,
